@@ -231,6 +231,16 @@ fn documents(c: &mut Ctx) {
                 Ok(Ok(())) => {
                     c.corr(req, format!("ok {} {} {}", hex_tok(&buf), cur.max_id, show_obj(&Object::Dictionary(cur.trailer.clone()))));
                     c.corr(format!("load {}", hex_tok(&buf)), load_reply(&buf));
+                    // the same document through a sink with short writes / Interrupted: the file must be the same
+                    if i % 3 == 0 {
+                        let mut odd = OddSink::new(&mut r); let mut d2 = before.clone();
+                        match guard(|| d2.save_to(&mut odd)) {
+                            Ok(Ok(())) => if odd.data != buf { c.oracle_fail("sink-dependent-bytes", &format!("cycle {}: saving through a sink with {} gives other bytes than saving into a Vec", cycle, odd.describe()), json!({"file": hex(&buf), "odd": hex(&odd.data), "kind": kind})); },
+                            Ok(Err(e)) => c.oracle_fail("sink-dependent-bytes", &format!("save through a sink with {} fails: {:?}", odd.describe(), e), json!({"kind": kind})),
+                            Err((site, msg)) => c.oracle_fail(&format!("panic@{}", site), &msg, json!({"kind": kind})),
+                        }
+                        c.count("doc.odd_sink_saves");
+                    }
                     match guard(|| Document::load_mem(&buf)) {
                         Ok(Ok(back)) => {
                             if let Some(diff) = compare_docs(&before, &back, stream) {
